@@ -13,6 +13,7 @@ import (
 	"strconv"
 	"strings"
 	"sync"
+	"time"
 )
 
 // ---------- flags ----------
@@ -48,7 +49,51 @@ func (o *Opts) Count(quick, thorough int) int {
 }
 
 // Want reports whether the case with this id should run.
-func (o *Opts) Want(id string) bool { return o.Only == "" || o.Only == id }
+func (o *Opts) Want(id string) bool {
+	ok := o.Only == "" || o.Only == id
+	if ok {
+		watchMu.Lock()
+		watchID, watchT = id, time.Now()
+		watchMu.Unlock()
+	}
+	return ok
+}
+
+var (
+	watchMu sync.Mutex
+	watchID string
+	watchT  time.Time
+)
+
+// Watchdog (opt-in, for drivers whose cases run one after the other in-process): when no case has been started
+// for limit, the code under test hangs in the case started last (or in a background part). That is reported as a
+// harness-level violation without a replay (the orchestrator keeps such records), the cases written so far are
+// kept, and the driver ends.
+func Watchdog(w *Writer, limit time.Duration) {
+	watchMu.Lock()
+	watchT = time.Now()
+	watchMu.Unlock()
+	go func() {
+		for {
+			time.Sleep(time.Second)
+			watchMu.Lock()
+			id, since := watchID, time.Since(watchT)
+			watchMu.Unlock()
+			if since > limit {
+				b, _ := json.Marshal(map[string]any{"id": "hang:" + id, "violation": fmt.Sprintf("the driver made no progress for %v: the code under test hangs in (or after) case %q", limit, id),
+					"desc": map[string]any{"last_case": id}})
+				w.mu.Lock()
+				w.w.Write(b)
+				w.w.WriteByte('\n')
+				w.count["harness-violation"]++
+				w.n++
+				w.mu.Unlock()
+				w.Close()
+				os.Exit(0)
+			}
+		}
+	}()
+}
 
 // ---------- PRNG (splitmix64), one independent stream per (seed, case id) ----------
 
